@@ -203,6 +203,8 @@ def exec_liesel(plan, V, log, counters):
     except Exception as e:
         if "Duplicate node names" in str(e):
             return 0
+        if isinstance(e, SutError):
+            raise
         raise SutError(f"build_model|{type(e).__name__}|?|{e}") from e
     model.auto_update = plan["user_auto"]
     R = copy.deepcopy(model)
